@@ -360,6 +360,9 @@ class DGen:
         return steps
 
 
+QUICK_SHAPES = [[0, False], [2, False], [1, True], [3, True]]
+
+
 def op_designs(thorough):
     """one single-operator design per operator x small shapes; stimulus enumerates all operand values"""
     shapes = [[0, False], [1, False], [2, False], [3, False], [1, True], [2, True], [3, True]]
@@ -369,7 +372,7 @@ def op_designs(thorough):
             for sb in shapes:
                 if op in ("<<", ">>") and sb[1]:
                     continue
-                if not thorough and (sa[0] == 2 or sb[0] == 2) and op not in ("//", "%", "<<", ">>", "-"):
+                if not thorough and op not in ("//", "%") and not (sa in QUICK_SHAPES and sb in QUICK_SHAPES):
                     continue
                 out.append(_op_design(["o2", op, ["s", 0], ["s", 1]], [sa, sb]))
     for op in G.OP1:
@@ -378,7 +381,7 @@ def op_designs(thorough):
                 continue
             out.append(_op_design(["o1", op, ["s", 0]], [sa]))
     # part-selects (word and bit) of signed and unsigned operands
-    for sa in shapes[1:]:
+    for sa in (shapes[1:] if thorough else [[1, False], [3, False], [1, True], [3, True]]):
         for pw in (1, 2, 4):
             for st in (1, 2, 3):
                 out.append(_op_design(["pt", ["s", 0], ["s", 1], pw, st], [sa, [2, False]]))
@@ -799,7 +802,7 @@ def extra(tier, seed, findings):
         nobs = len(d["sigs"]) + len(d["outs"]) + (2 * len(d["mem"]["reads"]) if d.get("mem") else 0)
         comparisons += (len(d["stim"]) + 1) * nobs
         steps += len(d["stim"])
-    cov = {"programs": len(cases), "disagreements_checked": comparisons, "samples": steps,
+    cov = {"programs": len(cases), "disagreements_checked": comparisons, "stimulus_steps": steps,
            "rtlil_cell_histogram": dict(CELL_HIST), "rtlil_modules": MOD_COUNT[0],
            "layer": "B = per-design translation validation (vm_compute of RtlilSem.run on the emitted text); "
                     "A = the theorems of Props/C04.v"}
